@@ -148,6 +148,87 @@ def mesh_level(ctx, expected):
         ctx.count(1, distinct_key=("mesh-recoordinated", str(et)))
 
 
+def mesh_level_rules(ctx, measured):
+    """Every rule (every point count accepted per shape), used through an element group: `Get_weightedJacobian_e_pg(n)` sums
+    to the measure of an integer box and `Integrate_e(f, n)` integrates the monomials the rule is exact for, on straight-sided
+    (affinely mapped) elements.  A rule is more than its table: signs of weights and of Jacobians meet here."""
+    from EasyFEA import Mesher
+    from EasyFEA.FEM import ElemType
+    from EasyFEA.Geoms import Domain, Point, Line
+    from harness.lifecycle import quiet
+
+    for shape, (et, dim) in SHAPES.items():
+        with quiet():
+            if dim == 1:
+                mesh = Line(Point(0, 0), Point(3, 0), 0.75).Mesh_1D(ElemType(et)) if hasattr(Line, "Mesh_1D") else None
+            elif dim == 2:
+                mesh = Mesher().Mesh_2D(Domain(Point(0, 0), Point(3, 2), 1.0), [], ElemType(et), isOrganised=(shape == "QUAD"))
+            else:
+                mesh = Mesher().Mesh_Extrude(Domain(Point(0, 0), Point(3, 2), 1.0), [], [0, 0, 2], [2], ElemType(et), isOrganised=(shape != "TETRA"))
+        if mesh is None:
+            continue
+        size = (3,) if dim == 1 else BOXES[dim]
+        # the mesh is also reflected: negative Jacobians must not change a measure
+        for variant in ("as meshed", "reflected"):
+            if variant == "reflected":
+                with quiet():
+                    mesh.Symmetry((0, 0, 0), (1, 0, 0))
+                    mesh.Translate(3, 0, 0)
+            for n in CANDIDATES[shape]:
+                order = measured.get(f"{shape}/{n}")
+                if order is None:
+                    continue
+                groups = mesh.Get_list_groupElem(dim)
+                try:
+                    meas = sum(float(np.sum(np.asarray(g.Get_weightedJacobian_e_pg(n)))) for g in groups)
+                except Exception as ex:
+                    ctx.violation(f"rule-on-mesh-raises/{shape}/{n}", f"Get_weightedJacobian_e_pg({n}) on {et} raises {type(ex).__name__}: {ex}", {"shape": shape, "nPg": n})
+                    continue
+                exm = float(np.prod(size))
+                if abs(meas - exm) > 1e-10 * exm:
+                    ctx.violation(f"rule-on-mesh/measure/{shape}/{n}", f"the weighted Jacobians of the {n}-point {shape} rule on the {size} box meshed with {et} ({variant}) sum to {meas}, exact measure {exm}", {"shape": shape, "nPg": n, "variant": variant})
+                for e in itertools.product(range(3), repeat=3):
+                    if sum(e) > min(int(order), 2) or any(e[k] for k in range(dim, 3)):
+                        continue
+                    expv = 1.0
+                    for k in range(dim):
+                        expv *= size[k] ** (e[k] + 1) / (e[k] + 1)
+                    f = lambda x, y, z, ex=e: x ** ex[0] * y ** ex[1] * z ** ex[2] + 0.0 * x
+                    got = sum(float(np.sum(g.Integrate_e(f, n))) for g in groups)
+                    if abs(got - expv) > 1e-10 * max(1.0, abs(expv)):
+                        ctx.violation(f"rule-on-mesh/integral/{shape}/{n}", f"Integrate_e(x^{e[0]} y^{e[1]} z^{e[2]}, {n}) over the {size} box meshed with {et} ({variant}) is {got}, exact {expv} (the rule is exact to degree {order})", {"shape": shape, "nPg": n, "exps": list(e), "variant": variant})
+                    ctx.count(1, distinct_key=("rule-on-mesh", shape, n, e, variant))
+
+
+def integer_typed_coordinates(ctx):
+    """the same points written in an integer array: segments and triangles embedded in the plane / in space (their coordinates
+    are re-expressed in the element's own axes) keep their lengths and areas; also after `coord = <integer array>`."""
+    from EasyFEA.FEM import ElemType, Mesh
+    from EasyFEA.FEM._group_elem import GroupElemFactory
+
+    cases = [
+        ("SEG2 in the plane", ElemType.SEG2, [[0, 0, 0], [1, 1, 0], [3, 3, 0], [4, 4, 0]], [[0, 1], [1, 2], [2, 3]], 4 * 2**0.5),
+        ("SEG2 in space", ElemType.SEG2, [[0, 0, 0], [1, 2, 2], [2, 4, 4]], [[0, 1], [1, 2]], 6.0),
+        ("TRI3 in space", ElemType.TRI3, [[0, 0, 0], [1, 0, 1], [0, 1, 2], [1, 1, 3]], [[0, 1, 2], [1, 3, 2]], 6**0.5),
+        ("QUAD4 in space", ElemType.QUAD4, [[0, 0, 0], [2, 0, 1], [2, 3, 1], [0, 3, 0]], [[0, 1, 2, 3]], 3 * 5**0.5),
+        ("TRI3 in the plane", ElemType.TRI3, [[0, 0, 0], [3, 0, 0], [0, 2, 0], [3, 2, 0]], [[0, 1, 2], [1, 3, 2]], 6.0),
+    ]
+    for label, et, pts, conn, exact in cases:
+        for dt in (float, np.int64, np.int32, np.float32):
+            g = GroupElemFactory.Create(et, np.array(conn), np.array(pts, dtype=dt))
+            meas = g.length if g.dim == 1 else g.area
+            if abs(meas - exact) > 1e-6 * exact if dt is np.float32 else abs(meas - exact) > 1e-12 * exact:
+                ctx.violation(f"typed-coordinates/{label}", f"{label} built from a coordinate array of type {np.dtype(dt).name} measures {meas}, exact {exact}", {"case": label, "dtype": np.dtype(dt).name})
+            # re-coordinated with an integer array (doubled): the measure scales with it
+            mesh = Mesh({et: GroupElemFactory.Create(et, np.array(conn), np.array(pts, dtype=float))})
+            mesh.coord = (2 * np.array(pts)).astype(dt)
+            m2 = mesh.length if g.dim == 1 else mesh.area
+            ex2 = exact * (2 if g.dim == 1 else 4)
+            if abs(m2 - ex2) > (1e-6 if dt is np.float32 else 1e-12) * ex2:
+                ctx.violation(f"typed-coordinates-set/{label}", f"{label} re-coordinated with an array of type {np.dtype(dt).name} measures {m2}, exact {ex2}", {"case": label, "dtype": np.dtype(dt).name})
+            ctx.count(2, distinct_key=("typed-coordinates", label, np.dtype(dt).name))
+
+
 def run(ctx):
     rules, factory = record()
     path = os.path.join(ctx.scratch, "quad_tables.json")
@@ -191,6 +272,8 @@ def run(ctx):
                 val *= Fraction(size[k] ** (e[k] + 1), e[k] + 1)
             expected[(dim, e)] = [val.numerator, val.denominator]
     mesh_level(ctx, expected)
+    mesh_level_rules(ctx, measured)
+    integer_typed_coordinates(ctx)
     from harness.props import c02
 
     c02.kernel_checks(ctx, which=("K",), label="C07-rank")
